@@ -182,6 +182,11 @@ def mu_boundary_corr(rep, rng, dev, tier, numpy_scalars=False):
                            "max_abs_diff": float(np.max(np.abs(snaps[-1] - want_mb)))})
         Ilits.append(coq_list([flit(scaled[nm]) for nm in order]))
     nb = len(solver.mu_boundary)
+    # hypothesis of C01_cache_coherent: the terminals cover disjoint sets of boundary edges
+    alle = np.concatenate([np.asarray(t.boundary_edge_indices, dtype=int) for t in info])
+    rep.coverage["terminal_edge_sets_disjoint"] = bool(len(alle) == len(np.unique(alle)))
+    if len(alle) != len(np.unique(alle)):
+        rep.not_shown("the device's terminals share boundary edges: the hypothesis of C01_cache_coherent is not met by this device", {})
     terms = coq_list([f"Build_terminal OpsF {flit(t.length)} {coq_list([str(int(b)) + '%nat' for b in t.boundary_edge_indices], per_line=20)}"
                       for t in info], per_line=1)
     t = ("From Coq Require Import PrimFloat List.\nImport ListNotations.\nFrom PyTdgl Require Import Base.Ops Model.Step.\nOpen Scope float_scope.\n"
